@@ -1333,6 +1333,12 @@ func main() {
 			oents = append(oents, fmt.Sprintf("  (* %s %s *)\n  (bs \"%s\",\n   [%s])", sf[1], sf[2], sf[0], strings.Join(ts, ";\n    ")))
 		}
 		fmt.Fprintf(&sw, "\n(* the Open functions (C10: the transport is closed in every failure case) *)\nDefinition open_skeleton : list (bytes * list bytes) := [\n%s].\n", strings.Join(oents, ";\n"))
+		// decision functions, statement by statement (gen/decide.go; interpreted by Decide.v)
+		fmt.Fprintf(&sw, "\nFrom Scrapli Require Import DecideLang.\nFrom Coq Require Import String.\nOpen Scope string_scope.\n")
+		fmt.Fprintf(&sw, "(* driver/netconf/capabilities.go Driver.determineVersion *)\nDefinition determine_version_code : list dstmt :=\n  %s.\n",
+			decisionFunc("driver/netconf/capabilities.go", "Driver.determineVersion", "getNetconfPatterns"))
+		fmt.Fprintf(&sw, "(* channel/channel.go Channel.GetTimeout *)\nDefinition get_timeout_code : list dstmt :=\n  %s.\n",
+			decisionFunc("channel/channel.go", "Channel.GetTimeout"))
 		sp := filepath.Join(filepath.Dir(*out), "GeneratedSkel.v")
 		olds, _ := os.ReadFile(sp)
 		if !bytes.Equal(olds, sw.Bytes()) {
